@@ -1,4 +1,6 @@
 From Coq Require Import extraction.Extraction ExtrOcamlBasic.
 Require Import Ojg.Base.Bytes Ojg.Base.Jv Ojg.Json.Machine Ojg.Json.Ref Ojg.Json.Show.
+Require Import Ojg.Jp.Expr Ojg.Jp.Show.
 Extraction Language OCaml.
-Extraction "model.ml" model_parse model_parse_chunks spec_accepts spec_parse.
+Extraction "model.ml" model_parse model_parse_chunks spec_accepts spec_parse
+  model_get model_match.
